@@ -62,7 +62,7 @@ def check(case) -> Result:
         ctl = case['duty']['how'] == 'rule'
         sp = case.get('split')
         if sp:
-            n1 = max(1, min(n - 1, int(n * sp['frac'])))
+            n1 = max(2, min(n - 2, int(n * sp['frac'])))          # a run needs at least two steps (dt < T)
             dt2 = G.qty('TimeInterval', dt_si, sp['unit2'])
             hist = [{'op': 'run', 'dt': dt, 'T': [dt[0] * n1, unit], 'control': ctl},
                     {'op': 'run', 'dt': dt2, 'T': [dt2[0] * (n - n1), sp['unit2']], 'control': ctl}]
@@ -89,7 +89,7 @@ def check(case) -> Result:
                 try:
                     S.run_op(b, c['history'][0])
                     n1 = len(b.powertrain.time) - 1
-                    if n1 < n:
+                    if n - n1 >= 2:                   # a run needs at least two steps (dt < T)
                         S.run_op(b, {'op': 'run', 'dt': dt, 'T': [dt[0] * (n - n1), unit], 'control': ctl})
                         res.classes += ('stopped-then-continued',)
                     traces = [S.Trace(b)]
